@@ -186,6 +186,31 @@ func (n c11Nested) MarshalJSON() ([]byte, error) {
 	return gojson.Marshal(map[string]any{"a": n.A, "in": stdjson.RawMessage(in)})
 }
 
+// c11NestedU decodes its own bytes with the library: two pooled decoder contexts are in use at
+// once, the outer one in the middle of its document.
+type c11NestedU struct {
+	Got  map[string]any
+	Path []string
+}
+
+func (n *c11NestedU) UnmarshalJSON(b []byte) error {
+	n.Got = nil
+	if err := gojson.Unmarshal(b, &n.Got); err != nil {
+		var any2 any
+		if err2 := gojson.Unmarshal(b, &any2); err2 != nil {
+			return err2
+		}
+		n.Got = map[string]any{"v": any2}
+	}
+	if p, err := gojson.CreatePath("$.k"); err == nil {
+		parts, _ := p.Extract(b)
+		for _, x := range parts {
+			n.Path = append(n.Path, string(x))
+		}
+	}
+	return nil
+}
+
 // c11Unm has the plain (context-free) UnmarshalJSON.
 type c11Unm struct{ got string }
 
@@ -488,9 +513,32 @@ func c11Pool(seed int64, idx int) []c11Call {
 			return fmt.Sprint(gojson.Valid(d), errClassStr(e1), errClassStr(e2), a.String(), b.String(), c.String())
 		})
 	}
+	// an unmarshaler that decodes with the library itself, with members before and behind it
+	type nestedDst struct {
+		A string       `json:"a"`
+		N c11NestedU   `json:"n"`
+		L []c11NestedU `json:"l"`
+		Z []int        `json:"z"`
+	}
+	for i, d := range []string{`{"a":"before","n":{"k":[1,2],"x":"inner"},"z":[7,8,9]}`, `{"n":{"k":"v"},"l":[{"k":1},[2],"three",{"k":{"k":4}}],"a":"behind","z":[1]}`,
+		`{"l":[{"k":"a long inner document ` + strings.Repeat("i", 300) + `"}],"a":"` + strings.Repeat("o", 200) + `","z":[1,2,3]}`} {
+		d := d
+		add(fmt.Sprintf("Unmarshal(nested-unmarshaler):%d", i), false, func(h *c11Handles) string {
+			var v nestedDst
+			err := gojson.Unmarshal([]byte(d), &v)
+			return fmt.Sprintf("%+v|%s", v, errClassStr(err))
+		})
+		add(fmt.Sprintf("Decoder(nested-unmarshaler):%d", i), false, func(h *c11Handles) string {
+			var v nestedDst
+			err := gojson.NewDecoder(strings.NewReader(d)).Decode(&v)
+			return fmt.Sprintf("%+v|%s", v, errClassStr(err))
+		})
+	}
 	// compiled paths reused along the history, failing documents included
 	pdocs := [][]byte{[]byte(`{"a":{"b":[1,{"c":2}]},"k":[1,"two"]}`), []byte(`{"a":1}`), []byte(`[1,2`), []byte(`{"a":{"b":"s"},"k":[]}`), []byte(`{"k":[[1],[2]],"a":{"b":null}}`), []byte(`nope`),
-		[]byte(`{"a":{"b":[1,{"c":`), []byte(`{"k":[1,`), []byte(`{"a":{"x":1,"b":tru}}`), []byte(`{"z":0,"k":[{"q":1},{"q":`)}
+		[]byte(`{"a":{"b":[1,{"c":`), []byte(`{"k":[1,`), []byte(`{"a":{"x":1,"b":tru}}`), []byte(`{"z":0,"k":[{"q":1},{"q":`),
+		// complete values followed by a stray byte: the error is found after the evaluation
+		[]byte(`{"a":{"b":1},"k":[1]} x`), []byte(`{"a":{"b":[1]},"k":[2]}]`), []byte(`{"a":1}{"a":2}`), []byte(`[1,2] ,`)}
 	for _, ps := range []string{"$.a.b", "$.k[0]", "$.k[*]", "$.a", "$..b"} {
 		for di, d := range pdocs {
 			ps, d := ps, d
